@@ -239,6 +239,19 @@ func genW3(r *simrt.Rng, prop string, tier string) (*w3Ops, []*model.Desc) {
 		}
 		d := baseDesc(r, go1)
 		uniqueNotes(d, r)
+		if prop == "C17" && len(d.Mappings) >= 3 && r.Chance(0.3) {
+			// two mappings with one name (the parser accepts that; mappings are told apart by their position, the
+			// name only selects the default - which keeps a name of its own here)
+			var others []int
+			for mi := range d.Mappings {
+				if d.Mappings[mi].Name != d.Mapping {
+					others = append(others, mi)
+				}
+			}
+			if len(others) >= 2 {
+				d.Mappings[others[1]].Name = d.Mappings[others[0]].Name
+			}
+		}
 		if prop == "C17" && r.Chance(0.3) {
 			// a configuration shared by several keyboard models: a section for a sub-handler this keyboard does not
 			// have gives the same keys other notes (another pitch class); it says nothing about this keyboard's LEDs
